@@ -106,7 +106,21 @@ def run(chk, w):
             stalled_succ = br[0]["t"] if br[1] else br[0]["f"]
             start = f.bmap[stalled_succ].insts[0]
             def is_find(x):
-                return x.op == "call" and x.callee in ("g_queue_find_custom", "g_queue_find") and ns.queue_field_of_call(P, f, x) == ns.STALLQ
+                if x.op == "call" and x.callee in ("g_queue_find_custom", "g_queue_find", "g_queue_index", "g_queue_peek_nth", "g_queue_peek_head", "g_queue_peek_head_link") \
+                        and ns.queue_field_of_call(P, f, x) == ns.STALLQ:
+                    return True
+                # a hand-written walk over the waiter list starts by reading the queue's head link
+                if x.op == "load" and x["ptr"].get("k") == "inst" and rules.field_path_of_ptr(P, f, x["ptr"]) in ("_GQueue.head", "_GQueue.tail"):
+                    g_ = f.resolve(x["ptr"])
+                    while g_ is not None and g_.op in ("getelementptr", "bitcast"):
+                        b_ = g_["base"] if g_.op == "getelementptr" else g_["a"]
+                        g_ = f.resolve(b_) if b_.get("k") == "inst" else None
+                    if g_ is not None and g_.op == "load":
+                        src_ = rules.resolve_local(f, {"k": "inst", "id": g_.id})
+                        gi_ = f.resolve(src_) if src_.get("k") == "inst" else g_
+                        if gi_ is not None and gi_.op == "load" and gi_["ptr"].get("k") == "inst" and rules.field_path_of_ptr(P, f, gi_["ptr"]) == ns.STALLQ:
+                            return True
+                return False
             p = rules.exists_path(f, start, "exit", is_find, include_start=True)
             if p:
                 chk.violation("C04-WALK", name, "waiter-lookup", ld.loc(), "a stalled ancestor is reported without looking the waiter up in its waiter list (%s)" % rules.path_text(p))
@@ -166,7 +180,13 @@ def run(chk, w):
     handlers = set()
     for name, stores in sorted(R.stall_stores.items()):
         f = P.functions[name]
-        vals = {rules.const_of(f, s["val"]) for s in stores}
+        vals = set()
+        for s in stores:
+            cv = rules.const_of(f, s["val"])
+            if cv is None and _bool_value(f, s["val"]) is not None:
+                vals |= {0, 1}          # `stall = (status != 0)`: both values, chosen by the notice
+            else:
+                vals.add(cv)
         if name in R.creators and vals == {0}:
             chk.ok("C04-WMW", 1, {"writer": name, "values": [0]})
         elif vals <= {0, 1, -1} and (0 in vals) and (vals & {1, -1}):
@@ -209,9 +229,24 @@ def run(chk, w):
     chk.rule("C04-WAKE", "clearing a stall drains the waiter list completely and retries every waiter whose node exists, before the mutex is released")
     for name in sorted(handlers):
         f = P.functions[name]
-        for s in R.stall_stores[name]:
-            if rules.const_of(f, s["val"]) != 0:
+        for s0 in R.stall_stores[name]:
+            cv0 = rules.const_of(f, s0["val"])
+            if cv0 is not None and cv0 != 0:
                 continue
+            s = s0
+            if cv0 is None:
+                # a computed flag: the clearing case begins on the edge where that same value is found false (else at the store)
+                bv = _bool_value(f, s0["val"])
+                starts = []
+                if bv is not None:
+                    for b in f.blocks:
+                        t = b.term
+                        if t.op == "br" and "cond" in t.d and t["t"] != t.get("f"):
+                            tv = _bool_value(f, t["cond"])
+                            if tv is not None and tv[0] == bv[0]:
+                                starts.append(f.bmap[t["f"] if tv[1] == bv[1] else t["t"]].insts[0])
+                if len(starts) == 1:
+                    s = starts[0]
             # every path from the clearing store to return/unlock passes the 'waiter list is empty' edge
             empties = []
             for b in f.blocks:
@@ -296,6 +331,34 @@ def type_param(disp):
     """index of the parameter the dispatcher's switch(es) are on"""
     from .. import dispatch
     return dispatch.find_dispatcher(disp.prog)[3 - 1]
+
+
+def _bool_value(f, o, depth=0):
+    """(id of the comparison / i1 instruction an operand is the value of, polarity) through casts, `!= 0`, negation and single-assignment locals"""
+    pol = True
+    for _ in range(10):
+        if o.get("k") != "inst":
+            return None
+        o2 = rules.resolve_local(f, o)
+        if o2 != o:
+            o = o2
+            continue
+        i = f.insts[o["id"]]
+        if i.op in ("zext", "sext", "trunc"):
+            o = i["a"]
+        elif i.op == "xor" and rules.const_of(f, i["b"]) in (1, -1):
+            pol = not pol
+            o = i["a"]
+        elif i.op == "icmp" and i["pred"] in ("eq", "ne") and rules.const_of(f, i["b"]) == 0 and i["a"].get("k") == "inst" and \
+                f.insts[rules.strip_casts(f, rules.resolve_local(f, i["a"])).get("id", i.id)].op in ("icmp", "zext", "xor", "trunc", "load") and \
+                _bool_value(f, i["a"], depth + 1) is not None and depth < 4:
+            inner = _bool_value(f, i["a"], depth + 1)
+            return inner[0], (inner[1] == pol) == (i["pred"] == "ne")
+        elif i.op in ("icmp", "fcmp"):
+            return i.id, pol
+        else:
+            return None
+    return None
 
 
 def _defining_global_loads(f, o, depth=0):
